@@ -518,7 +518,7 @@ func (r *sysRun) gate(w int, decision string) string {
 	p.obs.lastDecision[w] = decision
 	p.mu.Unlock()
 	before := len(p.written)
-	c.decide <- decision
+	c.give(decision)
 	// the worker has processed the answer once this call is no longer the pending one
 	for i := 0; i < 10000; i++ {
 		p.mu.Lock()
